@@ -34,6 +34,10 @@ pub struct ExtraSpec {
     /// Backlink: id of another cell's operation (or a made-up hash when there is none).
     pub link: u16,
     pub pos: u16,
+    /// Backlink to the last operation of the cell's own true chain instead (with `ahead > 0`: a
+    /// plausible backlink behind a gap in the sequence numbers).
+    #[serde(default)]
+    pub own_tip: bool,
 }
 
 #[derive(Clone, Debug, Serialize, Deserialize)]
@@ -174,6 +178,8 @@ impl Script {
             let log = (cell % logs) as u8;
             let backlink: Option<H32> = if seq == 0 {
                 None
+            } else if e.own_tip && !chains[cell].is_empty() {
+                chains[cell].last().map(|b| b.id())
             } else {
                 let foreign: Vec<H32> = all.iter().filter(|(c, _)| *c != cell).map(|(c, i)| chains[*c][*i].id()).collect();
                 Some(if foreign.is_empty() {
@@ -325,8 +331,8 @@ pub mod strategies {
 
     pub fn extras(max: usize) -> impl Strategy<Value = Vec<ExtraSpec>> {
         prop::collection::vec(
-            (any::<u16>(), 0u8..3, prop::bool::weighted(0.4), any::<u16>(), any::<u16>())
-                .prop_map(|(cell, ahead, prune, link, pos)| ExtraSpec { cell, ahead, prune, link, pos }),
+            (any::<u16>(), 0u8..3, prop::bool::weighted(0.4), any::<u16>(), any::<u16>(), prop::bool::weighted(0.4))
+                .prop_map(|(cell, ahead, prune, link, pos, own_tip)| ExtraSpec { cell, ahead, prune, link, pos, own_tip }),
             0..=max,
         )
     }
